@@ -12,7 +12,9 @@ Proof side : coq/Properties_C01.v.  coq/SidsCodec.v is a combinator library over
 Tie T      : translators/c01_templates.py (every cgi_new_node / cgi_new_node_partial template of every function, every
              cgi_get_nodes label of every reader, the enumeration name tables, constants).
 Tie C      : seeded random call sequences (any mix and order of kinds, random legal names, all shapes incl. rind, all
-             data types, extreme magnitudes, NaN bit patterns, +-0, denormals) run through harness/c01_rt.c on ADF and
+             data types, extreme magnitudes, NaN bit patterns, +-0, denormals; every array kind ALSO written a second way:
+             in slabs through the partial / general writers, long enough to span 4096-byte blocks at every alignment)
+             run through harness/c01_rt.c on ADF and
              HDF5 (+ HDF5 configurations through cg_configure) and through the extracted model:
              (i) the cgio dump of the file equals the model's [enc]; (ii) what cg_n*/cg_*_info/cg_*_read report after
              close + cg_open(READ) equals the model's [api_fill (view ..)]; returned indices equal the model's.
@@ -822,11 +824,19 @@ def e_array(g, par, p):
     dims = p.kw.get("dims") or [rng.randint(1, 4) for _ in range(rng.choice([1, 1, 2, 3, 4]))]
     if p.kw.get("patch_of"):
         dims = [rng.choice([1, par.patch])]
+    if not p.kw.get("dims") and not p.kw.get("patch_of") and rng.random() < 0.2:
+        dims = [rng.randint(300, 1500)] if rng.random() < 0.5 else [rng.randint(20, 60), rng.randint(8, 30)]   # spans 4096-byte blocks
     data = rand_elems(rng, dt, prod(dims))
-    ci = g.call("array", par, p.kw["name"], arrs=[(dt, dims, data)], plan=p)
+    sl = slab_spec(rng, dims, [1] * len(dims), partial_ok=False, p=p.kw.get("slab_p", 0.6)) if par.kind in SLAB_PARENTS else None
+    ci = g.call("array", par, p.kw["name"], arrs=[(dt, dims, data)], plan=p, slab=sl)
     n = Node("DataArray_t", p.kw["name"], p_arr(dt, dims, data), par)
     g.expect_index(ci, None)
     return n
+
+
+# parents under which cg_array_general_write has no rind planes to consider
+SLAB_PARENTS = {"UserDefinedData_t", "IntegralData_t", "ConvergenceHistory_t", "BaseIterativeData_t", "ZoneIterativeData_t",
+                "BCData_t.DirichletData", "BCData_t.NeumannData", "RigidGridMotion_t"}
 
 
 # ---- tranche 2
@@ -1068,7 +1078,11 @@ class Planner:
             else:
                 nvt = rng.randint(300, 900) if large else rng.randint(4, 16)
                 sizes = [nvt, rng.randint(1, 9), rng.randint(0, nvt)]
-            zones.append((zprefix + self.nm("Z")[:32 - len(zprefix)], zt, sizes))
+            zn = (zprefix + self.nm("Z")[:32 - len(zprefix)]).strip()            # no leading / trailing blank (assumption)
+            while any(zn == z[0] for z in zones) or not zn:
+                zn = (zn[:24] + b"_%d" % self.names.n)[:32]
+                self.names.n += 1
+            zones.append((zn, zt, sizes))
         for zn, zt, sizes in zones:
             z = Plan("zone", e_zone, name=zn, zt=zt, sizes=sizes)
             self.zone(z, zt, cell, zones)
@@ -1616,7 +1630,12 @@ def run(ck):
                       "references, parts, family names), descriptors, data class, units (5 / 8), exponents (5 / 8), conversion, "
                       "ordinal, family name, user-defined data nested to depth 3 with arrays of every type and rank 1..4; calls are "
                       "issued in a random interleaving that only respects parent-before-child; array elements mix random bits with "
-                      "special patterns (NaN payloads, +-0, denormals, +-inf, extreme magnitudes); names 1..32 printable characters.  "
+                      "special patterns (NaN payloads, +-0, denormals, +-inf, extreme magnitudes); names 1..32 printable characters.  About three quarters of the coordinate / field / "
+                      "section / general arrays are produced a second way -- written in 2..5 slabs along a random axis in random order "
+                      "through cg_*_general_write (memory sub-range) / cg_*_partial_write / cg_section_partial_write + "
+                      "cg_elements_partial_write -- with the same expected entity; half of the zones are large and every base holds six long "
+                      "vectors (1-, 4-, 8-, 16-byte elements) behind descriptors of random length so that slab-written data span 4096-byte "
+                      "blocks at every alignment.  "
                       "Tranche 2: discrete data, integral data, reference state, convergence history, rigid / arbitrary grid motion, base / zone "
                       "iterative data, simulation type, gravity, axisymmetry, rotating coordinates, equation set + governing equations.  "
                       "The first file of a run is written and read on ADF, HDF5 and four HDF5 configurations made through cg_configure (core "
